@@ -22,7 +22,11 @@ SurfSet == IF SurfMode = 0 THEN {} ELSE
 RawU == <<2, AffineKV(MkClamped(2, <<Half>>, <<1>>), RI(3), RI(0))>>
 RawV == <<1, AffineKV(MkClamped(1, <<Half>>, <<1>>), RI(2), RI(-1))>>
 RawSurf == IF SurfMode = 0 THEN {} ELSE Surfaces({RawU}, {RawV}, {3}, BOOLEAN, Seed) \cup Surfaces({RawV}, {RawU}, {3}, {FALSE}, Seed)
-Shapes == CurveSet \cup SurfSet \cup RawSurf
+\* surfaces with different degrees per direction, used by the hodograph action only
+HD3 == <<3, MkClamped(3, <<Half>>, <<1>>)>>
+HD2 == <<2, MkClamped(2, <<R(1,4), R(3,4)>>, <<1, 1>>)>>
+HodoOnly == IF SurfMode = 0 THEN {} ELSE Surfaces({HD3}, {HD2}, {3}, {FALSE}, Seed) \cup Surfaces({HD2}, {HD3}, {3}, {FALSE}, Seed)
+Shapes == CurveSet \cup SurfSet \cup RawSurf \cup HodoOnly
 Init == sh \in Shapes /\ out = [op |-> "init"]
 
 MaxDeg == IF PDim(sh) = 1 THEN sh.deg[1] ELSE IMax(sh.deg[1], sh.deg[2])
@@ -52,7 +56,7 @@ Hodograph ==
             ELSE [op |-> "hodo", h |-> <<HodoSurfU(sh), HodoSurfV(sh), HodoSurfUV(sh)>>]
   /\ UNCHANGED sh
 PQ == IF PDim(sh) = 1 THEN IMin(sh.deg[1], 2) ELSE 1
-Next == \/ \E prm \in ShapeParams(sh, PQ) : \E order \in Orders : Ders(prm, order)
+Next == \/ sh \notin HodoOnly /\ \E prm \in ShapeParams(sh, PQ) : \E order \in Orders : Ders(prm, order)
         \/ Hodograph
 Spec == Init /\ [][Next]_vars
 
